@@ -2,7 +2,7 @@
 import collections
 import random
 
-from ..simutil import KRandom
+from ..simutil import KRandom, parse_via
 
 ID = 'C20'
 TECHNIQUE = 'runtime monitoring: seeded DEF texts (own renderer within the supported grammar) are parsed by the real parser and every attribute of the resulting DefFile, including the per-net wire and via listings computed by the real DefNet/DefWire code, is compared with the generator\'s record'
@@ -292,7 +292,7 @@ def check_case(ctx, rng, idx):
         except Exception:
             ctx.count('rejected_files_before_parse')
     with ctx.guard('def-raises', case):
-        d = def_file.parse(text)
+        d = parse_via(def_file, text, rng, ctx)
         ctx.count('files')
         for k, v in stats.items():
             ctx.count(k, v)
